@@ -31,7 +31,7 @@ RULE = (
     "R(required attr), G[int]} (+ instances value-equal to the enclosing one, + U with a required "
     "union-typed attribute, in a 1-3 block sub-family); probe (ctx.state(T) and ctx.state(T, default) for every T) at "
     "every position, both probe orders; non-trivial = some type is supplied at two nesting levels "
-    "or by two instances in one block, or a subclass is supplied while the base is asked; "
+    "or by two instances in one block, or a subclass is supplied while the base is asked; chains of 5-7 nested blocks over 3 supplies; a type M whose only attribute without default accepts MISSING; "
     "extension family (<= 2 blocks): every block additionally ends by return / exception / "
     "cancellation and is built either inline or ahead of time (at program start) and entered later"
 )
@@ -47,7 +47,7 @@ EXHAUSTIVE = {"quick": True, "thorough": True}
 SAMPLE_EVERY = {"quick": 30000, "thorough": 60000}
 
 KINDS = ["ascope", "sscope", "updated", "dscope"]
-TYPES = ("A", "A2", "R", "G", "U", "F")
+TYPES = ("A", "A2", "R", "G", "U", "F", "M")
 
 
 def _forests(n_max: int, kinds: list[str], supplies: list[int]):
@@ -99,7 +99,7 @@ def programs(tier: str):
             for s1, s2 in ((1, 1), (1, 2), (5, 1), (0, 1)):
                 yield {"forest": [{"l": [k1, s1], "c": [{"l": ["updated", 2, "return", "shared"], "c": []}]}, {"l": [k2, s2], "c": [{"l": ["updated", 2, "return", "shared"], "c": []}]}], "order": "nd-first"}
     # value-equal re-supplies and a type whose default construction fails with an ExceptionGroup
-    for sup in (8, 9, 10, 11, 12):
+    for sup in (8, 9, 10, 11, 12, 13):
         for kind in KINDS:
             yield {"forest": [{"l": [kind, sup], "c": []}], "order": "nd-first"}
             for okind in KINDS:
@@ -116,6 +116,18 @@ def programs(tier: str):
                     continue
                 k += 1
                 yield {"forest": label_forest(shape, [list(x) for x in labels]), "order": "nd-first" if k % 2 else "d-first"}
+    # deep chains: 5-7 blocks nested in one another, each supplying from a small alphabet (lookups
+    # at every level; e.g. an implementation that compacts long chains of scope states)
+    for depth in (5, 6, 7):
+        for kinds in (("ascope",) * depth, ("updated", "ascope", "sscope", "dscope", "updated", "ascope", "updated")[:depth]):
+            for sups in itertools.product((1, 2, 5), repeat=depth):
+                if depth == 7 and (len(set(sups)) > 2 or tier == "quick"):
+                    continue
+                node = None
+                for kind_, s_ in reversed(list(zip(kinds, sups))):
+                    node = {"l": [kind_, s_], "c": [node] if node else []}
+                k += 1
+                yield {"forest": [node], "order": "nd-first" if k % 2 else "d-first"}
     if tier == "thorough":
         n4 = 0
         for shape in forest_shapes(4):
